@@ -79,7 +79,7 @@ def check(ctx):
     model = CacheModel(repo, max_paths=max(ctx.max_paths, 65536))
     fi = model.fi
     ctx.unit('functions')
-    r = check_protocol(ctx, model, 'V')
+    r = check_protocol(ctx, model, 'VA')
     seen = set()
 
     def once(rule, st):
